@@ -23,6 +23,9 @@ import (
 	"testing"
 	"time"
 
+	"github.com/gotid/god/api/chain"
+	"github.com/gotid/god/api/handler"
+	"github.com/gotid/god/lib/logx"
 	"verif.local/vk"
 )
 
@@ -41,6 +44,9 @@ func c02RecorderDoer(e *c02Env) c02Doer {
 		}
 		req := httptest.NewRequest(run.route.Method, run.route.Path, body)
 		req.Header.Set(c02RunHeader, run.id)
+		if opt.upgrade {
+			req.Header.Set("Upgrade", "websocket")
+		}
 		if opt.ctx != nil {
 			req = req.WithContext(opt.ctx)
 		}
@@ -86,13 +92,13 @@ func c02RunBatch(m *vk.M, b int, racing bool) {
 		bc.ShortMs = int64(20 + r.Intn(81))
 		bc.GaugeReqs = 25
 	}
-	bc.MaxConns = []int{1, 2, 5, 16}[r.Intn(4)]
+	bc.MaxConns = []int{1, 2, 5, 16, 0, -1}[r.Intn(6)] // <= 0: unlimited
 	bc.MaxBytes = int64(1 + r.Intn(4096))
 	short := time.Duration(bc.ShortMs) * time.Millisecond
 	var fastOpt, shortOpt time.Duration
 	switch r.Intn(3) {
 	case 0: // no server-wide timeout: fast routes run without a timeout handler
-		bc.CfgMs, bc.ShortBy, bc.FastBy, shortOpt = 0, "route", "none", short
+		bc.CfgMs, bc.ShortBy, bc.FastBy, shortOpt = []int64{0, -3}[r.Intn(2)], "route", "none", short // zero / negative: no timeout handler
 	case 1:
 		bc.CfgMs, bc.ShortBy, bc.FastBy, shortOpt = int64(c02LongTimeout/time.Millisecond), "route", "config", short
 	default:
@@ -195,7 +201,24 @@ func c02RunBatch(m *vk.M, b int, racing bool) {
 		worker("pv", func(r *rand.Rand) { c02ScPanicAlphabet(c, e, do, e.routes["pv"], r) })
 	}
 	worker("conns", func(r *rand.Rand) {
+		if bc.MaxConns <= 0 {
+			c02ScUnlimited(c, e, do, e.routes["conns"][0], 24, r)
+			return
+		}
 		c02ScMaxConns(c, e, do, e.routes["conns"][0], bc.MaxConns, 1+r.Intn(4), r)
+	})
+	worker("upgrade", func(r *rand.Rand) {
+		// websocket upgrade requests bypass the timeout handler: still the handler's response
+		rt := e.routes["gauge"][1]
+		if racing {
+			rt = e.routes["conns"][0] // gauge routes are busy in the racing flavour; conns route is clean too
+			return
+		}
+		for k := 0; k < 4; k++ {
+			if !c02ScFastOpt(c, e, do, rt, c02GenFast(r, false), "upgrade", c02ReqOpt{upgrade: true}) {
+				return
+			}
+		}
 	})
 	worker("bytes", func(r *rand.Rand) {
 		rt := e.routes["bytes"][0]
@@ -213,21 +236,76 @@ func c02RunBatch(m *vk.M, b int, racing bool) {
 	})
 	if racing {
 		// concurrency below/at the limit (nothing may be rejected) and above it
+		limit := bc.MaxConns
+		if limit <= 0 {
+			limit = 1 << 20 // unlimited: nothing may ever be rejected
+		}
 		worker("gauge0", func(r *rand.Rand) {
-			clients := 1 + r.Intn(bc.MaxConns)
-			c02ScGauge(c, e, do, e.routes["gauge"][0], bc.MaxConns, clients, bc.GaugeReqs, r.Int63())
+			clients := 1 + r.Intn(16)
+			if bc.MaxConns > 0 {
+				clients = 1 + r.Intn(bc.MaxConns)
+			}
+			c02ScGauge(c, e, do, e.routes["gauge"][0], limit, clients, bc.GaugeReqs, r.Int63())
 		})
 		worker("gauge1", func(r *rand.Rand) {
+			if bc.MaxConns <= 0 {
+				c02ScGauge(c, e, do, e.routes["gauge"][1], limit, 48, bc.GaugeReqs, r.Int63())
+				return
+			}
 			clients := bc.MaxConns + 1 + r.Intn(3*bc.MaxConns+8)
 			if clients > 64 {
 				clients = 64
 			}
-			c02ScGauge(c, e, do, e.routes["gauge"][1], bc.MaxConns, clients, bc.GaugeReqs, r.Int63())
+			c02ScGauge(c, e, do, e.routes["gauge"][1], limit, clients, bc.GaugeReqs, r.Int63())
 		})
+	}
+	if b%4 == 1 {
+		worker("customchain", func(r *rand.Rand) { c02CustomChain(c, b, short, r) })
 	}
 	wg.Wait()
 	m.Count("batches", 1)
 	m.Count("config_timeout_"+bc.ShortBy, 1)
+}
+
+// c02CustomChain: a user-composed chain (WithChain) with the recover middleware
+// *outside* the timeout handler, so that a handler panic has to cross
+// timeoutHandler's goroutine boundary through its panic channel: 500, never a
+// dead process; gated late (+ late panic) handlers still get the timeout response.
+func c02CustomChain(c *c02Ctx, b int, short time.Duration, r *rand.Rand) {
+	for _, d := range []time.Duration{c02LongTimeout, short} {
+		chn := chain.New(handler.MaxConns(8), handler.RecoverHandler, handler.TimeoutHandler(d))
+		tag := fmt.Sprintf("b%dcc%d", b, d/time.Millisecond)
+		c02LogOnce.Do(logx.Disable)
+		e, err := c02NewEnv(tag, Config{}, []c02Group{{Class: "cc", Method: http.MethodGet, N: 6, Timeout: d}}, WithChain(chn))
+		if err != nil {
+			c.m.Inconclusive("custom chain: %v", err)
+			return
+		}
+		if err := e.srv.ng.bindRoutes(e.srv.router); err != nil {
+			c.m.Inconclusive("custom chain: bindRoutes: %v", err)
+			return
+		}
+		do := c02RecorderDoer(e)
+		rts := e.routes["cc"]
+		if d == c02LongTimeout {
+			for i := 0; i < 8; i++ {
+				mode := []string{"first", "hdrs", "committed", "any"}[i%4]
+				if !c02ScPanicLenient(c, e, do, rts[i%len(rts)], c02GenPanicAt(r, mode, c02RandPanic(r).V), r) && c.m.ViolCount() > 0 {
+					return
+				}
+			}
+			continue
+		}
+		for i := 0; i < 4; i++ {
+			sc := c02GenLatePanic(r)
+			if i%2 == 1 {
+				sc = c02GenLate(r)
+			}
+			if ok, _ := c02ScLate(c, e, do, rts[i%len(rts)], sc); !ok && c.m.ViolCount() > 0 {
+				return
+			}
+		}
+	}
 }
 
 func c02RunBatches(m *vk.M, first, n, width int, racing bool) {
